@@ -407,7 +407,7 @@ def src_impl(c, xs=None, ys=None):
                                     footprint=None if c['foot'] is None else c['foot'].copy(),
                                     mask=None if c['mask'] is None else c['mask'].copy(),
                                     centroid_func=f, **kw)
-    except ValueError:
+    except Exception:     # ValueError of centroid_sources, or anything the centroid function lets through
         return 'raise'
     return [(float(a), float(b)) for a, b in zip(x, y)]
 
@@ -467,6 +467,8 @@ def src_oracle(c):
             xc, yc = float(xc), float(yc)
         except (ValueError, TypeError):
             xc, yc = math.nan, math.nan
+        except Exception:     # centroid_sources does not catch anything else
+            return 'raise'
         out.append((xc + x0, yc + y0))
     return out
 
@@ -1035,7 +1037,7 @@ def safe(f, *args, **kwargs):
             warnings.simplefilter('ignore')
             r = f(*args, **kwargs)
         return (float(r[0]), float(r[1]))
-    except (ValueError, TypeError):
+    except Exception:     # incl. astropy's NonFiniteValueError, LinAlgError, ...
         return (math.nan, math.nan)
 
 
@@ -1256,13 +1258,32 @@ def cutout_of(c, xp, yp):
     return max(0, iy), min(ny, iy + fy), max(0, ix), min(nx, ix + fx), iy, ix
 
 
+NONFINITE = [math.nan, math.inf, -math.inf]
+
+
+def sprinkle_nonfinite(rng, data, allowed, k=None):
+    """(copy of data with 1..3 NaN/inf pixels at positions where `allowed`, boolean map of
+    those positions)."""
+    cand = [tuple(p) for p in np.argwhere(allowed)]
+    nf = np.zeros(data.shape, bool)
+    for p in rng.sample(cand, min(len(cand), k or rng.randint(1, 3))):
+        nf[p] = True
+    out = np.array(data, float)
+    out[nf] = [rng.choice(NONFINITE) for _ in range(int(nf.sum()))]
+    return out, nf
+
+
 def masked_input_support(ctx, n):
     """'ignores masked pixels' values' for EVERY per-pixel input: replacing the data AND the
     error under the mask (huge, zero, negative, NaN, inf) must not change a single bit of the
     result -- for every centroid function (error= for those that accept it), directly and
     through centroid_sources (input mask; pixels excluded by a non-rectangular footprint).
     The symmetry-centre, flip and transposition relations are run with a mask and a
-    non-constant error map as well (symmetric where required, arbitrary under the mask)."""
+    non-constant error map as well (symmetric where required, arbitrary under the mask).
+    About 60% of the cases additionally carry 1..3 NaN / +-inf pixels at UNMASKED positions
+    (symmetric positions for the symmetry relation): these are masked automatically, so the
+    expectations are unchanged and the result must equal, bit for bit, the same call with
+    those pixels added to the mask."""
     rng = ctx.rng
     names = ('com', 'quadratic', '1dg', '2dg')
     for i in range(n):
@@ -1279,10 +1300,25 @@ def masked_input_support(ctx, n):
         m[yx] = False
         if not m.any():
             m[(yx[0] + 1) % ny, yx[1]] = True
+        finite_data, nf = data, np.zeros(data.shape, bool)
+        if rng.random() < 0.6:
+            ok_pos = ~m
+            ok_pos[yx] = False
+            data, nf = sprinkle_nonfinite(rng, data, ok_pos)
+        ctx.stat('masked_inputs_unmasked_nonfinite', str(int(nf.sum())))
         d2, e2 = junk_under(rng, data, m, JUNK_DATA), junk_under(rng, err, m, JUNK_ERROR)
         for name in names:
             a = call_masked(name, data, m, err)
             b = call_masked(name, d2, m, e2)
+            if nf.any():
+                ref = call_masked(name, finite_data, m | nf, err)
+                ctx.support(f'nonfinite_as_masked_{name}')
+                if not bitwise(a, ref):
+                    ctx.violation(f'centroid_{name}:nonfinite-as-masked', f'centroid_{name}: NaN/inf in unmasked pixels '
+                                  f'gives {a}, the same pixels added to the mask give {ref}',
+                                  {'fn': 'nonfinite_as_masked', 'func': name, 'data': jimg(data),
+                                   'finite_data': jimg(finite_data), 'error': jimg(err), 'mask': m.astype(int).tolist(),
+                                   'nonfinite': nf.astype(int).tolist()})
             ctx.support(f'masked_inputs_{name}')
             rec = {'fn': 'masked_inputs', 'func': name, 'data': jimg(data), 'data2': jimg(d2), 'error': jimg(err),
                    'error2': jimg(e2), 'mask': m.astype(int).tolist()}
@@ -1309,8 +1345,15 @@ def masked_input_support(ctx, n):
         sm = m0 | m0[::-1, ::-1]
         e0 = rand_error(rng, sdata.shape)
         serr = junk_under(rng, (e0 + e0[::-1, ::-1]) / 2, sm, JUNK_ERROR)
-        sd = junk_under(rng, sdata, sm, JUNK_DATA)
         cx, cy = (sx - 1) / 2, (sy - 1) / 2
+        if rng.random() < 0.6:     # non-finite pixels at unmasked, point-symmetric positions off the core
+            yy, xx = np.mgrid[:sy, :sx]
+            ok_pos = ~sm & (np.hypot(xx - cx, yy - cy) > 1.6)
+            _, nf1 = sprinkle_nonfinite(rng, sdata, ok_pos, k=rng.randint(1, 2))
+            snf = nf1 | nf1[::-1, ::-1]
+            sdata = sdata.copy()
+            sdata[snf] = [rng.choice(NONFINITE) for _ in range(int(snf.sum()))]
+        sd = junk_under(rng, sdata, sm, JUNK_DATA)
         for name in ('com', '1dg', '2dg'):
             r = call_masked(name, sd, sm, serr)
             tol = 1e-9 if name == 'com' else 2e-3
@@ -1334,6 +1377,19 @@ def masked_input_support(ctx, n):
         c = dict(c, mask=gm, kw=dict(c['kw']))
         if name in TAKES_ERROR:
             c['kw']['error'] = rand_error(rng, c['data'].shape)
+        c_fin = c
+        near = np.zeros(c['data'].shape, bool)      # unmasked pixels inside the cutouts, not the position pixels
+        for xp, yp in zip(c['xs'], c['ys']):
+            near[max(0, int(yp) - 2):int(yp) + 3, max(0, int(xp) - 2):int(xp) + 3] = True
+        for xp, yp in zip(c['xs'], c['ys']):
+            near[int(round(yp)), int(round(xp))] = False
+        near &= ~gm
+        snf = np.zeros(c['data'].shape, bool)
+        if rng.random() < 0.6 and near.any():
+            dnf, snf = sprinkle_nonfinite(rng, c['data'], near)
+            c = dict(c, data=dnf)
+            sources_blind(ctx, name, c, dict(c_fin, mask=gm | snf), 'automatic mask of NaN/inf pixels (reference: the same '
+                          'pixels in the input mask)', sig='nonfinite-as-masked')
         c2 = dict(c, data=junk_under(rng, c['data'], gm, JUNK_DATA), kw=dict(c['kw']))
         if 'error' in c['kw']:
             c2['kw']['error'] = junk_under(rng, c['kw']['error'], gm, JUNK_ERROR)
@@ -1343,10 +1399,19 @@ def masked_input_support(ctx, n):
         for _ in range(rng.randint(1, 5)):
             foot[rng.randrange(foot.shape[0]), rng.randrange(foot.shape[1])] = False
         foot[foot.shape[0] // 2, foot.shape[1] // 2] = True
-        c = dict(c, box=None, foot=foot, mask=None, xs=c['xs'][:1], ys=c['ys'][:1])
+        c = dict(c_fin, box=None, foot=foot, mask=None, xs=c['xs'][:1], ys=c['ys'][:1])
         y0, y1, x0, x1, iy, ix = cutout_of(c, c['xs'][0], c['ys'][0])
         excl = np.zeros(c['data'].shape, bool)
         excl[y0:y1, x0:x1] = ~foot[y0 - iy:y1 - iy, x0 - ix:x1 - ix]
+        incl = np.zeros(c['data'].shape, bool)
+        incl[y0:y1, x0:x1] = foot[y0 - iy:y1 - iy, x0 - ix:x1 - ix]
+        incl[int(round(c['ys'][0])), int(round(c['xs'][0]))] = False
+        if rng.random() < 0.6 and incl.any():
+            dnf, snf = sprinkle_nonfinite(rng, c['data'], incl)
+            c_ref = dict(c, mask=snf)
+            c = dict(c, data=dnf)
+            sources_blind(ctx, name, c, c_ref, 'automatic mask of NaN/inf pixels inside the footprint (reference: the same '
+                          'pixels in the input mask)', sig='nonfinite-as-masked')
         if excl.any():
             c2 = dict(c, data=junk_under(rng, c['data'], excl, JUNK_DATA), kw=dict(c['kw']))
             if 'error' in c['kw']:
@@ -1354,14 +1419,15 @@ def masked_input_support(ctx, n):
             sources_blind(ctx, name, c, c2, 'footprint')
 
 
-def sources_blind(ctx, name, c, c2, what):
+def sources_blind(ctx, name, c, c2, what, sig='masked-inputs-ignored'):
     a, b = src_impl(c), src_impl(c2)
-    ctx.support(f'masked_inputs_sources_{name}')
+    ctx.support(f'{sig}_sources_{name}')
     rec = dict(src_describe(c), fn='masked_inputs_sources', func=name, data2=jimg(c2['data']),
-               error2=jimg(c2['kw']['error']) if 'error' in c2['kw'] else None)
+               error2=jimg(c2['kw']['error']) if 'error' in c2['kw'] else None,
+               mask2=None if c2['mask'] is None else c2['mask'].astype(int).tolist())
     ctx.count_case(rec, a != 'raise')
     if (a == 'raise') != (b == 'raise') or (a != 'raise' and (len(a) != len(b) or not all(bitwise(p, q) for p, q in zip(a, b)))):
-        ctx.violation(f'centroid_sources:masked-inputs-ignored:{name}', f'centroid_sources(centroid_func=centroid_{name}): '
+        ctx.violation(f'centroid_sources:{sig}:{name}', f'centroid_sources(centroid_func=centroid_{name}): '
                       f'changing the data' + (' and error' if 'error' in c2['kw'] else '') + f' values of pixels masked by the '
                       f'{what} changed the result from {a} to {b}', rec)
 
@@ -1427,7 +1493,7 @@ def symmetric_support(ctx, n):
                 with warnings.catch_warnings():
                     warnings.simplefilter('ignore')
                     return f(data)
-            except (ValueError, TypeError):
+            except Exception:
                 return (math.nan, math.nan)
         res = {'com': (call(centroid_com), 1e-9), '1dg': (call(centroid_1dg), 2e-3),
                '2dg': (call(centroid_2dg), 2e-3)}
@@ -1503,6 +1569,12 @@ def replay(obj):
         ok = bitwise(a, b)
         if ok and r.get('relation'):
             print('relation', r['relation'], 'is re-checked by bin/check (same seed)')
+    elif fn == 'nonfinite_as_masked':
+        m, nf = np.array(r['mask'], bool), np.array(r['nonfinite'], bool)
+        a = call_masked(r['func'], unj(r['data']), m, unj(r['error']))
+        b = call_masked(r['func'], unj(r['finite_data']), m | nf, unj(r['error']))
+        print(f"centroid_{r['func']}: NaN/inf in unmasked pixels {a};  those pixels masked instead {b}")
+        ok = bitwise(a, b)
     elif fn == 'masked_symmetric':
         a = call_masked(r['func'], unj(r['data']), np.array(r['mask'], bool), unj(r['error']))
         print(f"centroid_{r['func']}: {a};  symmetry centre {tuple(r['centre'])}")
@@ -1513,6 +1585,8 @@ def replay(obj):
         c2 = dict(c, data=unj(r['data2']), kw=dict(c['kw']))
         if r.get('error2') is not None:
             c2['kw']['error'] = unj(r['error2'])
+        if 'mask2' in r:
+            c2['mask'] = None if r['mask2'] is None else np.array(r['mask2'], bool)
         a, b = src_impl(c), src_impl(c2)
         print(f'centroid_sources: original {a};  other values under the mask {b}')
         ok = (a == 'raise') == (b == 'raise') and (a == 'raise' or (len(a) == len(b) and all(bitwise(p, q) for p, q in zip(a, b))))
